@@ -49,6 +49,58 @@ def pretty_failing(v, ctx):
     raise RuntimeError('this printer always fails')
 
 
+class Sometimes:
+    """its printer fails for some instances only: a failure for one instance must not change how other instances print"""
+
+    def __init__(self, bad, payload):
+        self.bad, self.payload = bad, payload
+
+    def __repr__(self):
+        return '<Sometimes %r>' % (self.payload,)
+
+
+@register_pretty(Sometimes)
+def pretty_sometimes(v, ctx):
+    if v.bad:
+        raise LookupError('this instance cannot be printed')
+    return prettyprinter.pretty_call(ctx, Sometimes, False, v.payload)
+
+
+class HBase:
+    def __init__(self, x):
+        self.x = x
+
+    def __repr__(self):
+        return '<%s %r>' % (type(self).__name__, self.x)
+
+
+class HSub(HBase):
+    pass
+
+
+class HOther(HBase):
+    pass
+
+
+def _op_register_hbase_by_name():
+    @register_pretty(__name__ + '.HBase')
+    def pretty_hbase(v, ctx):
+        return prettyprinter.pretty_call(ctx, type(v), x=v.x)
+
+
+def _op_register_hsub_by_class():
+    @register_pretty(HSub)
+    def pretty_hsub(v, ctx):
+        return prettyprinter.pretty_call(ctx, HSub, v.x, special=True)
+
+
+def _op_narrow_width():
+    prettyprinter.set_default_config(width=30)
+
+
+OPS = {'op:register-HBase-by-name': _op_register_hbase_by_name, 'op:register-HSub-by-class': _op_register_hsub_by_class, 'op:set-default-width-30': _op_narrow_width}
+
+
 class UserObj:
     def __init__(self):
         self.a = [1, 2]
@@ -114,6 +166,12 @@ def build_corpus(quick):
     add('cyclic-dict', d)
     shared = [1, 2]
     add('shared', [shared, shared, {'k': shared}])
+    add('sometimes-good', Sometimes(False, [1, 2]))
+    add('sometimes-bad', Sometimes(True, [3]))
+    add('sometimes-good-nested', {'k': [Sometimes(False, 'x'), Sometimes(True, 'y'), Sometimes(False, 'z')]})
+    add('hsub', HSub(1))
+    add('hbase', HBase(2))
+    add('hother-nested', [HOther(3), HSub(4)])
     add('failing', Failing())
     add('failing-nested', {'ok': [1, 2], 'bad': Failing(), 'also ok': 'text'})
     add('userobj', UserObj())
@@ -270,7 +328,10 @@ def print_entry(i):
     return text, before == after
 
 
-def reference_child(i):
+def reference_child(arg):
+    i, ops = arg
+    for op in ops:
+        OPS[op]()
     return print_entry(i)
 
 
@@ -280,6 +341,11 @@ def history_child(order):
     g0 = global_state()
     texts, mutated = [], []
     for i in order:
+        if isinstance(i, str):
+            OPS[i]()
+            texts.append(None)
+            mutated.append(False)
+            continue
         t, same = print_entry(i)
         texts.append(t)
         mutated.append(not same)
@@ -297,18 +363,19 @@ def run_shard(sh):
     names = [c[0] for c in CORPUS]
     refs = {}
 
-    def ref(i):
-        if i not in refs:
-            status, res = fork_call(reference_child, i, timeout=120)
+    def ref(i, ops=()):
+        key = (i, tuple(ops))
+        if key not in refs:
+            status, res = fork_call(reference_child, (i, tuple(ops)), timeout=120)
             if status != 'ok':
                 sh.inconclusive.append('reference child for %s: %s %s' % (names[i], status, str(res)[:200]))
-                refs[i] = None
+                refs[key] = None
             else:
-                refs[i] = res[0]
+                refs[key] = res[0]
                 if not res[1]:
                     sh.violation('input-mutated', 'printing %s (first call in a fresh process) modified the value' % names[i], {'history': [names[i]], 'position': 0})
                 sh.counters['reference prints (value printed first in a fresh fork)'] += 1
-        return refs[i]
+        return refs[key]
 
     idx_of = {nm: i for i, nm in enumerate(names)}
     adversarial = [
@@ -321,12 +388,17 @@ def run_shard(sh):
         ['commented-dict', 'commented', 'commented-top', 'commented-dict'],
         list(reversed(names)),
         names + names,
+        ['sometimes-good', 'sometimes-bad', 'sometimes-good', 'sometimes-good-nested', 'sometimes-bad', 'sometimes-good'],
+        ['hsub', 'op:register-HBase-by-name', 'hsub', 'hother-nested', 'hbase', 'hsub'],
+        ['hsub', 'hbase', 'op:register-HBase-by-name', 'hother-nested', 'hsub', 'op:register-HSub-by-class', 'hsub', 'hbase', 'hother-nested'],
+        ['hother-nested', 'op:register-HSub-by-class', 'hsub', 'op:register-HBase-by-name', 'hsub', 'hother-nested'],
+        ['builtin-0', 'commented', 'op:set-default-width-30', 'builtin-0', 'commented', 'long-string'],
     ]
     H = 48 if quick else 600
     plen = 300 if quick else 800
     jobs = []
     for a in adversarial:
-        jobs.append(('adversarial', [idx_of[x] for x in a]))
+        jobs.append(('adversarial', [x if x.startswith('op:') else idx_of[x] for x in a]))
     for h in range(H):
         rng = V.rng_for('c19h', sh.seed, h)
         jobs.append(('random', [rng.randrange(n) for _ in range(plen)]))
@@ -339,15 +411,20 @@ def run_shard(sh):
             continue
         texts, mutated, g0, g1, changed = res
         if changed:
-            sh.violation('shared-constant-mutated', 'module-level document constants changed during a history: %r' % changed[:5], {'history': [names[i] for i in order][:50], 'position': None})
+            sh.violation('shared-constant-mutated', 'module-level document constants changed during a history: %r' % changed[:5], {'history': [label(i) for i in order][:50], 'position': None})
+        applied = []
+        label = lambda k: k if isinstance(k, str) else names[k]
         for pos, i in enumerate(order):
-            want = ref(i)
+            if isinstance(i, str):
+                applied.append(i)
+                continue
+            want = ref(i, applied)
             if want is None:
                 continue
-            case = {'history': [names[k] for k in order[:pos + 1]][-40:], 'position': pos, 'entry': names[i]}
+            case = {'history': [label(k) for k in order[:pos + 1]][-40:], 'position': pos, 'entry': names[i]}
             if texts[pos] != want:
                 key = 'history-dependent-output'
-                if names[i].startswith(('gmtime', 'stat_result', 'sys.flags', 'version_info')) and any(names[k].startswith('hostile') for k in order[:pos]):
+                if names[i].startswith(('gmtime', 'stat_result', 'sys.flags', 'version_info')) and any(label(k).startswith('hostile') for k in order[:pos]):
                     key = 'struct-sequence-cache-poisoned'
                 sh.violation(key, 'entry %s printed at position %d gives %r, but %r when printed first in a fresh process' % (names[i], pos, texts[pos][:300], want[:300]), case)
             else:
@@ -364,7 +441,7 @@ def run_shard(sh):
         for nm in set(g0['deferred']) - set(g1['deferred']):
             sh.see('deferred printers promoted', nm)
         if j % 10 == 0:
-            sh.sample({'history kind': kind, 'order (first 12)': [names[i] for i in order[:12]], 'length': len(order)})
+            sh.sample({'history kind': kind, 'order (first 12)': [label(i) for i in order[:12]], 'length': len(order)})
     sh.notes['corpus size'] = n
 
 
@@ -381,7 +458,7 @@ def replay(wit):
     CORPUS = build_corpus(wit.get('tier', 'quick') == 'quick')
     names = [c[0] for c in CORPUS]
     c = wit['case']
-    order = [names.index(x) for x in c['history'] if x in names]
+    order = [x if x.startswith('op:') else names.index(x) for x in c['history'] if x in names or x.startswith('op:')]
     print('history:', c['history'])
     status, res = fork_call(history_child, order, timeout=300)
     if status != 'ok':
@@ -389,8 +466,12 @@ def replay(wit):
         return False
     texts, mutated, g0, g1, changed = res
     ok = True
+    applied = []
     for pos, i in enumerate(order):
-        st, r = fork_call(reference_child, i, timeout=60)
+        if isinstance(i, str):
+            applied.append(i)
+            continue
+        st, r = fork_call(reference_child, (i, tuple(applied)), timeout=60)
         if st == 'ok' and r[0] != texts[pos]:
             print('VIOLATED history-dependent-output: %s at position %d:\n%s\n-- but printed first in a fresh process:\n%s' % (names[i], pos, texts[pos][:500], r[0][:500]))
             ok = False
